@@ -191,7 +191,13 @@ def run_batch(prop_id, tier, batch_seed, runs=None, workers=None, wall_cap=None,
                     results.extend(d.result())
                 except Exception as e:
                     harness_errors.append("worker failed: " + "".join(traceback.format_exception(e)))
-            if time.monotonic() - t0 < wall:
+            # (evaluation of seeded changes only: once enough hard violations are in, submitting more runs tells nothing new)
+            stop_after = int(os.environ.get("VERIF_STOP_AFTER_VIOLATIONS", "0") or 0)
+            enough = stop_after > 0 and sum(
+                1 for r in results if isinstance(r, dict) and r.get("violation")
+                and not str(r["violation"]["signature"]).split("/")[1:2] == ["known"]
+                and "circle-exports-half-radius" not in r["violation"]["signature"]) >= stop_after
+            if time.monotonic() - t0 < wall and not enough:
                 submit_more()
             else:
                 stopped_early = stopped_early or next(it, None) is not None
